@@ -23,9 +23,13 @@ def main():
     ap.add_argument('--replay', default=None)
     ap.add_argument('--emit', action='store_true')
     a = ap.parse_args()
+    # the registered checks always test /repo; VERIF_REPO is only used by
+    # tools/seeded.py to evaluate a seeded change in a scratch worktree
+    repo = os.environ.get('VERIF_REPO', '/repo')
+    sys.path.insert(0, repo)
     import trashcli
-    if not trashcli.__file__.startswith('/repo/'):
-        print('HARNESS-ERROR trashcli is not imported from /repo: %s' % trashcli.__file__)
+    if not trashcli.__file__.startswith(repo + '/'):
+        print('HARNESS-ERROR trashcli is not imported from %s: %s' % (repo, trashcli.__file__))
         return 2
     from checks import framework as F
     if a.prop == 'selftest':
